@@ -754,6 +754,11 @@ pub(crate) struct CompactionIterator<'a> {
 	/// active snapshot must be preserved. The list is sorted in ascending
 	/// order for efficient binary search.
 	snapshots: Vec<u64>,
+
+	/// Visible sequence number when `snapshots` was captured. Versions above it
+	/// were not visible yet: a snapshot taken later may start at any of them, so
+	/// each one is treated as if a snapshot stood exactly at its sequence number.
+	visible_horizon: Option<u64>,
 }
 
 impl<'a> CompactionIterator<'a> {
@@ -790,6 +795,7 @@ impl<'a> CompactionIterator<'a> {
 			clock,
 			initialized: false,
 			snapshots,
+			visible_horizon: None,
 		}
 	}
 
@@ -798,6 +804,12 @@ impl<'a> CompactionIterator<'a> {
 		self.merge_iter.seek_first()?;
 		self.initialized = true;
 		Ok(())
+	}
+
+	/// Tells the iterator which sequence number was visible when its snapshot
+	/// list was captured; versions above it are kept (see `visible_horizon`).
+	pub(crate) fn set_visible_horizon(&mut self, horizon: Option<u64>) {
+		self.visible_horizon = horizon;
 	}
 
 	// ========== Snapshot Visibility Methods ==========
@@ -821,6 +833,12 @@ impl<'a> CompactionIterator<'a> {
 	/// # Errors
 	/// Returns an error if the sequence number is invalid (zero).
 	fn find_earliest_visible_snapshot(&self, seq_num: u64) -> Result<SnapshotVisibility> {
+		// Not visible when the snapshots were captured: a later snapshot may
+		// start exactly here
+		if self.visible_horizon.is_some_and(|h| seq_num > h) {
+			return Ok(SnapshotVisibility::BoundedBySnapshot(seq_num));
+		}
+
 		// Fast path: no active snapshots
 		if self.snapshots.is_empty() {
 			return Ok(SnapshotVisibility::NoActiveSnapshots);
